@@ -16,6 +16,8 @@ pub enum TVal {
     BytesList(#[serde(with = "crate::hexser::vecvec")] Vec<Vec<u8>>),
     /// an arbitrary well-formed item through a user-defined `Encodable`
     Item(Item),
+    /// a user-defined `Encodable` whose `encode` emits these bytes verbatim (possibly not one RLP item)
+    Raw(#[serde(with = "crate::hexser")] Vec<u8>),
 }
 
 impl TVal {
@@ -31,6 +33,7 @@ impl TVal {
             TVal::StrList(l) => encode(&Item::List(l.iter().map(|s| Item::s(s.as_bytes())).collect())),
             TVal::BytesList(l) => encode(&Item::List(l.iter().map(|s| Item::s(s)).collect())),
             TVal::Item(i) => encode(i),
+            TVal::Raw(b) => b.clone(),
         }
     }
 }
